@@ -11,16 +11,21 @@
 (*   kind "process"  ScpiProcess!ProcAccepts                               *)
 (* plus the C05 / C13 monitors.  `nfree` counts the lines that were        *)
 (* decided (partly) on territory the properties leave free.                *)
+(* Every recorded process session is ALSO compared with the                *)
+(* implementation-shaped model (ScpiProcessImpl): `nimpl` counts the       *)
+(* sessions it explains step by step; one it does not is printed as        *)
+(* IMPL-DRIFT (a note, not a rejection - that layer pins more than the     *)
+(* properties do).                                                         *)
 (***************************************************************************)
-EXTENDS Ifaces, ScpiProcess, Json, IOUtils, TLC, TLCExt
+EXTENDS Ifaces, ScpiProcess, ScpiProcessImpl, Json, IOUtils, TLC, TLCExt
 
 \* The trace file is read ONCE (in Init) into a TLC register: TLC does not cache the value of a definition
 \* that calls into IOUtils/Json, and re-reading a large file at every reference dominates the run time.
 RecsFile == ndJsonDeserialize(IOEnv.TRACE)
 Recs == TLCGet(42)
 
-VARIABLES l, nfree, carry
-vars == <<l, nfree, carry>>
+VARIABLES l, nfree, carry, nimpl
+vars == <<l, nfree, carry, nimpl>>
 \* carry: state the specification keeps from one line to the next - the contents of a long-lived error
 \* queue whose history is recorded over several lines ("cont" lines of kind "queue")
 
@@ -180,13 +185,28 @@ Judge(r) ==
          LET E == ProcEnd(CfgOf(r.iface), r.N, r.obs) IN
          [ok |-> ProcMonitors(r.obs) /\ EndOk(r.N, r.obs) /\ E # {}, free |-> \A st \in E : st.free]
 
-Init == TLCSet(42, RecsFile) /\ l = 1 /\ nfree = 0 /\ carry = <<>>
+\* verdicts of the implementation-shaped layer for the process sessions of one line
+ImplVerdicts(r) ==
+  IF IOEnv.VERIF_IMPL = "0" THEN <<>>
+  ELSE CASE r.kind = "process" -> <<ImplProcVerdict(CfgOf(r.iface), r.N, r.obs)>>
+         [] r.kind = "procset" -> [k \in 1..Len(r.obs.v) |-> ImplProcVerdict(CfgOf(r.iface), r.N, r.obs.v[k])]
+         \* the fault variants are prefixes of the fault-free session (FailSetJudge), which is the one compared
+         [] r.kind = "failset" -> <<ImplProcVerdict(CfgOf(r.iface), r.N, r.obs.ref)>>
+         [] r.kind = "multi" -> [k \in 1..Len(r.obs.procs) |-> ImplProcVerdict(CfgOf(r.iface), r.procs[k].N, r.obs.procs[k])]
+         [] OTHER -> <<>>
+RECURSIVE CountOk(_, _, _)
+CountOk(V, k, line) ==
+  IF k > Len(V) THEN 0
+  ELSE (IF V[k] = "ok" THEN 1 ELSE IF V[k] = "drift" /\ PrintT(<<"IMPL-DRIFT", line, k>>) THEN 0 ELSE 0) + CountOk(V, k + 1, line)
+
+Init == TLCSet(42, RecsFile) /\ l = 1 /\ nfree = 0 /\ carry = <<>> /\ nimpl = 0
 Next == /\ l <= Len(Recs)
         /\ IF Recs[l].kind = "queue"
            THEN LET w == QueueLine(Recs[l], carry) IN w.ok /\ carry' = w.q /\ nfree' = nfree
            ELSE LET j == Judge(Recs[l]) IN j.ok /\ nfree' = nfree + (IF j.free THEN 1 ELSE 0) /\ carry' = carry
+        /\ nimpl' = nimpl + CountOk(ImplVerdicts(Recs[l]), 1, l)
         /\ l' = l + 1
-        /\ (l = Len(Recs) => PrintT(<<"TRACE-STATS", Len(Recs), nfree'>>))
+        /\ (l = Len(Recs) => PrintT(<<"TRACE-STATS", Len(Recs), nimpl', nfree'>>))
 Spec == Init /\ [][Next]_vars
 
 \* accepted iff every line was consumed; otherwise name the first line that was not
